@@ -34,10 +34,10 @@ PROPS = {
             "condition is absent or true, appends once per row, evaluates every target on that row (R-ROWLOOP, 4 "
             "gate cases executed abstractly); FROM expression AND-ed with WHERE (R-FROMAND, 4 cases). Does not "
             "decide the numeric value of an operator application, regular-expression results or overload "
-            "resolution for nested expressions. The constant a cell computes with is the parameter written at that place: positional placeholders bind in textual order whatever the order clauses are compiled in (R-PLACEHOLDER). R-DIVGUARD and the operator terms of R-OPSEM are decided by interpreting each implementation on terms with a zero and a non-zero divisor: no division by the second operand is evaluated before the zero test, the zero case returns NULL, the other case returns the operation of the operator's name. AND / OR / COALESCE are interpreted on terms for every operand list of length 1-3 over NULL, FALSE, TRUE, zero/empty and other values: the value is that of the truth table (NULL, FALSE or TRUE for AND / OR), operands are evaluated once, left to right, and evaluation stops where the statement says it stops (R-3VL). No evaluator writes state that outlives the row (write census, R-SHARED): a cell is computed from its row alone."),
+            "resolution for nested expressions. The constant a cell computes with is the parameter written at that place: positional placeholders bind in textual order whatever the order clauses are compiled in (R-PLACEHOLDER). R-DIVGUARD and the operator terms of R-OPSEM are decided by interpreting each implementation on terms with a zero and a non-zero divisor: no division by the second operand is evaluated before the zero test, the zero case returns NULL, the other case returns the operation of the operator's name. AND / OR / COALESCE are interpreted on terms for every operand list of length 1-3 over NULL, FALSE, TRUE, zero/empty and other values: the value is that of the truth table (NULL, FALSE or TRUE for AND / OR), operands are evaluated once, left to right, and evaluation stops where the statement says it stops (R-3VL). No evaluator writes state that outlives the row (write census, R-SHARED): a cell is computed from its row alone. R-NULLSTRICT is decided on terms: every NULL / non-NULL operand assignment of every NULL-propagating evaluator class (and every outcome of the comparisons between non-NULL values); a NULL reaches neither the operation nor an ordering comparison nor arithmetic. The function-call evaluator recognises NULL operands by identity (R-EVALALL)."),
         'assumptions': TRUSTED_STRUCT + TRUSTED_ABSINT[3:],
-        'quick': [evalnodes.rule_nullstrict, evalnodes.rule_divguard, evalnodes.rule_promote, evalnodes.rule_opsem,
-                  sxev.rule_3vl, sx.rule_rowloop, sxk.rule_fromand, sxk.rule_implicitcast, gr.rule_precmatrix, sxst.rule_placeholder, st.rule_shared],
+        'quick': [sxev.rule_nullstrict, evalnodes.rule_divguard, evalnodes.rule_promote, evalnodes.rule_opsem,
+                  sxev.rule_3vl, sx.rule_rowloop, sxk.rule_fromand, sxk.rule_implicitcast, gr.rule_precmatrix, sxst.rule_placeholder, st.rule_shared, sxev.rule_evalall],
         'thorough': [],
     },
     'C02': {
@@ -51,9 +51,9 @@ PROPS = {
             "faithfulness of the structural node equality used to merge GROUP BY expressions with targets, for all "
             "evaluator classes and all column instances that can meet in one table (R-EQFAITH); grouping references "
             "validated against the domain they are resolved in (R-IDXBOUND) and hidden grouping targets nameless and "
-            "appended (R-HIDDEN). Does not decide numeric values of folds nor hashing/equality of key values. Every aggregate node of a target expression is found, once per occurrence and left to right, by get_columns_and_aggregates (R-AGGCOLLECT): a node left out is never allocated, updated or finalized. R-AGGCLASS decides, on terms, the final state of the slot and the mutations of the accumulator object for every value x slot x order x state-query case of every aggregate class, and initialize / finalize / __call__. EvalNode.__eq__ itself holds iff same class and all __slots__ attributes equal (16 cases on terms)."),
+            "appended (R-HIDDEN). Does not decide numeric values of folds nor hashing/equality of key values. Every aggregate node of a target expression is found, once per occurrence and left to right, by get_columns_and_aggregates (R-AGGCOLLECT): a node left out is never allocated, updated or finalized. R-AGGCLASS decides, on terms, the final state of the slot and the mutations of the accumulator object for every value x slot x order x state-query case of every aggregate class, and initialize / finalize / __call__. EvalNode.__eq__ itself holds iff same class and all __slots__ attributes equal (16 cases on terms). Every operand a node is built with is among what childnodes() yields, for each of the 12 evaluator classes (R-CHILDNODES): an operand kept in a tuple or outside __slots__ hides the aggregates below it."),
         'assumptions': TRUSTED_STRUCT,
-        'quick': [sxs.rule_aggproto, sxag.rule_aggclass, eqfaith.rule_eqfaith, sxk.rule_idxbound, cr.rule_hidden, sxg.rule_aggcollect],
+        'quick': [sxs.rule_aggproto, sxag.rule_aggclass, eqfaith.rule_eqfaith, sxk.rule_idxbound, cr.rule_hidden, sxg.rule_aggcollect, sxev.rule_childnodes],
         'thorough': [sxs.rule_aggproto_deep, sxk.rule_idxbound_deep],
     },
     'C03': {
@@ -88,10 +88,10 @@ PROPS = {
             "type (R-COALESCE, 36 type pairs executed); untyped operands are cast to the other side's type, decimal for "
             "int (R-IMPLICITCAST); in the thorough tier every overload is also run for the subclass operands that the "
             "MRO lookup admits (R-ADMITTED). Decides type conformance of declarations vs. implementations for all overloads; "
-            "does not decide values of dtype `object` nor conformance of ledger data to beancount's annotations. Also: the overload-resolution primitives of types.py (Any equals every class and not the `*` pseudo-type, the strict linearisation, first overload along it) behave as the registry model assumes (R-LOOKUP, 13 cases on terms), and every output column of both scan branches holds the value of its own target (R-ROWLOOP, R-AGGPROTO key layout). A subquery column announces the data type of the inner target whose row position it reads, with hidden, repeated and mixed-case inner names (R-VISFILTER). AND / OR announce bool and evaluate to NULL, FALSE or TRUE whatever the operand types (R-3VL)."),
+            "does not decide values of dtype `object` nor conformance of ledger data to beancount's annotations. Also: the overload-resolution primitives of types.py (Any equals every class and not the `*` pseudo-type, the strict linearisation, first overload along it) behave as the registry model assumes (R-LOOKUP, 13 cases on terms), and every output column of both scan branches holds the value of its own target (R-ROWLOOP, R-AGGPROTO key layout). A subquery column announces the data type of the inner target whose row position it reads, with hidden, repeated and mixed-case inner names (R-VISFILTER). AND / OR announce bool and evaluate to NULL, FALSE or TRUE whatever the operand types (R-3VL). `x.attr` builds EvalGetter(x, field column, field column datatype) (R-ACCESSNODE); R-GUARDS: a grouping key of a type that cannot be hashed is rejected however it is referenced."),
         'assumptions': TRUSTED_ABSINT,
         'quick': [dtype.rule_dtype, dtype.rule_typesafe, dtype.rule_renderable, sxg.rule_opresolve, sxk.rule_coalesce,
-                  sxk.rule_implicitcast, sxty.rule_lookup, sxs.rule_aggproto, sx.rule_rowloop, tb.rule_tablefields, cr.rule_visfilter, sxev.rule_3vl],
+                  sxk.rule_implicitcast, sxty.rule_lookup, sxs.rule_aggproto, sx.rule_rowloop, tb.rule_tablefields, cr.rule_visfilter, sxev.rule_3vl, sxk.rule_accessnode, sxg.rule_guards],
         'thorough': [dtype.rule_admitted],
     },
     'C05': {
@@ -116,7 +116,7 @@ PROPS = {
         'assumptions': TRUSTED_STRUCT + TRUSTED_ABSINT[:1],
         'quick': [cr.rule_raise, sxg.rule_guards, sxg.rule_targetchk, cr.rule_guard_typesafe, sxk.rule_idxbound,
                   sxg.rule_opresolve, cr.rule_partial, cr.rule_foldsafe, cr.rule_exhaustive, cr.rule_exctree,
-                  eqfaith.rule_eqfaith, sxk.rule_coalesce, sxk.rule_implicitcast, sxst.rule_placeholder, sxk.rule_fromclause, sxk.rule_inop, sxty.rule_lookup],
+                  eqfaith.rule_eqfaith, sxk.rule_coalesce, sxk.rule_implicitcast, sxst.rule_placeholder, sxk.rule_fromclause, sxk.rule_inop, sxty.rule_lookup, sxev.rule_childnodes],
         'thorough': [sxk.rule_idxbound_deep],
     },
     'C06': {
@@ -133,11 +133,11 @@ PROPS = {
             "rules' regexes (R-SHADOW); clause openers reserved (R-KEYWORDS); every lexical class (comments, identifiers, "
             "strings, integers, decimals, dates) denotes exactly the language of its reference definition, decided by "
             "equivalence of the two finite automata, and the comment patterns copied into the generated parser equal the "
-            "grammar's (R-LEXLANG); literal forms by language membership (R-LEXSPEC, thorough). Does not decide the behaviour of TatSu's run-time, hence not the round trip itself."),
+            "grammar's (R-LEXLANG); literal forms by language membership (R-LEXSPEC, thorough). Does not decide the behaviour of TatSu's run-time, hence not the round trip itself. The clauses of select / balances / journal / print / groupby are read in the order of the published language (R-CLAUSEORDER)."),
         'assumptions': ["TatSu's code generator (5.7.x, the version range pyproject.toml pins) is deterministic and "
                         "faithful to its input grammar", "no BQL text is parsed by the check"],
         'technique': 'translation validation (regenerate and compare syntax trees) + grammar-model analysis',
-        'quick': [gr.rule_regen, gr.rule_precmatrix, gr.rule_astfields, gr.rule_semantics, gr.rule_shadow, gr.rule_keywords, gr.rule_lexlang, gr.rule_fieldonce, st.rule_parsefresh],
+        'quick': [gr.rule_regen, gr.rule_precmatrix, gr.rule_astfields, gr.rule_semantics, gr.rule_shadow, gr.rule_keywords, gr.rule_lexlang, gr.rule_fieldonce, gr.rule_clauseorder, st.rule_parsefresh],
         'thorough': [gr.rule_lexspec],
     },
     'C07': {
@@ -166,7 +166,7 @@ PROPS = {
             "single-column guard exists (R-GUARDS) and the IN node is NULL-propagating (R-NULLSTRICT). Does not decide "
             "equality of nested and materialised results in general. IN / NOT IN hand the compiled operands on unmodified, wrap a one-column subquery as a constant list and reject wider ones (R-INOP). Compiling the enclosing SELECT stores nothing into the compiled subquery or its table, for ordered / unordered and plain / aggregate outer queries (R-QUERYFROZEN): FROM (q) runs over the rows q produces by itself, in q's order. `SELECT * FROM (q)` presents one column per visible target of q, in order (R-SUBQNAMES; for an inner query with two targets of the same name the columns collapse: known finding D30)."),
         'assumptions': TRUSTED_STRUCT,
-        'quick': [sxst.rule_reentrant, cr.rule_visfilter, eqfaith.rule_eqfaith, sxg.rule_guards, evalnodes.rule_nullstrict,
+        'quick': [sxst.rule_reentrant, cr.rule_visfilter, eqfaith.rule_eqfaith, sxg.rule_guards, sxev.rule_nullstrict,
                   sx.rule_subq1d, sxk.rule_inop, cr.rule_wildcard, sxst.rule_queryfrozen, cr.rule_subqnames],
         'thorough': [],
     },
@@ -180,7 +180,7 @@ PROPS = {
             "connection (R-SHARED). Constant folding only behind all-constant operands and, for functions, behind "
             "purity, with purity = neither row nor context passed and no global/clock reads (R-FOLDPURE); positional "
             "placeholders numbered in textual order and read back from where the numbering is kept (R-PLACEHOLDER). "
-            "Does not decide value equality of folded and unfolded evaluation."),
+            "Does not decide value equality of folded and unfolded evaluation. The census also follows: fields that hold connection objects, locals aliasing objects kept on self, results of `_compile` (which can be the table's own column objects), subscript reads of defaultdict fields of connection objects (a missing key is inserted), one-shot iterators stored on connection objects."),
         'assumptions': TRUSTED_STRUCT + [
             "receiver lifetimes: instances of a class are IMPORT/CONNECTION/EXECUTION objects according to where the class is "
             "instantiated; attributes named entries/options/entry/posting/postings/meta/price_map hold caller-owned ledger data; "
@@ -229,7 +229,7 @@ PROPS = {
             "bound to the same index/name/dtype and rows are produced one per input row with converters in column order "
             "(R-IDENTITY). Does not decide that get_currency_units sums lots nor numeric equality after quantisation. Three scenarios of numberify_results: currencies present, an amount-like column without any currency (it disappears), two amount-like columns of one name and type (each decomposed from its own cells). run_query(numberify=True) hands the description and rows of the result and options['dcontext'].build() with its default precision to numberify_results (R-RUNQUERY)."),
         'assumptions': TRUSTED_STRUCT + TRUSTED_ABSINT[:1],
-        'quick': [sxn.rule_siblings, lib.rule_numberify_null, sxn.rule_identity, sxn.rule_runquery],
+        'quick': [sxn.rule_siblings, lib.rule_numberify_null, sxn.rule_identity, sxn.rule_runquery, sxsh.rule_selectout, sxk.rule_accessnode],
         'thorough': [],
     },
     'C18': {
@@ -270,12 +270,12 @@ PROPS = {
             "must be empty (R-SHARED); FROM-clause qualifiers are applied to a copy of the table (R-TABLECOPY); the "
             "balance guard lives in the per-scan row context (R-ONCEPERROW); threadsafety is a valid DB-API level "
             "(R-MODCONST). With nothing shared no interleaving needs exploring. Sharing a cursor between threads is "
-            "outside DB-API level 2 and outside the claim. The census follows locals that alias an object kept on self (a row context created once per connection-owned table and rewound per scan is shared by concurrent scans)."),
+            "outside DB-API level 2 and outside the claim. The census follows locals that alias an object kept on self (a row context created once per connection-owned table and rewound per scan is shared by concurrent scans). parse() runs the statement through a parser object made in that call (R-PARSEFRESH)."),
         'assumptions': TRUSTED_STRUCT + [
             "the call graph is over-approximated: every function of the non-front-end modules that is not import-only is "
             "treated as execution-reachable",
             "TatSu, beancount and dateutil internals perform no shared writes (summarised, not analysed)"],
-        'quick': [st.rule_shared, sxst.rule_tablecopy, sxst.rule_onceperrow, cu.rule_modconst, sxc.rule_freshcursor],
+        'quick': [st.rule_shared, sxst.rule_tablecopy, sxst.rule_onceperrow, cu.rule_modconst, sxc.rule_freshcursor, st.rule_parsefresh],
         'thorough': [],
     },
     'C11': {
@@ -295,7 +295,7 @@ PROPS = {
             "convert functions compute what their names say. FROM qualifiers are applied to a copy of the connection's table, so the rows of a statement come from its own clauses only (R-TABLECOPY); getitem on a NULL container gives NULL with or without a default."),
         'assumptions': TRUSTED_STRUCT + TRUSTED_ABSINT[:2],
         'quick': [tb.rule_accesspath, sxt.rule_rowgen, tb.rule_tablefields, tb.rule_metarewrite, dtype.rule_dtype_columns,
-                  dtype.rule_typesafe_columns, sxst.rule_tablecopy],
+                  dtype.rule_typesafe_columns, sxst.rule_tablecopy, st.rule_shared],
         'thorough': [],
     },
     'C13': {
@@ -327,7 +327,7 @@ PROPS = {
             "string constants and deliberately not matched (a frozen fragment). NOT decided: that printed entries load "
             "back equal (beancount's printer and parser). The running balance and every other piece of state the expansions touch is private to one execution (R-SHARED), and the FROM qualifiers of all three statements are applied in the fixed order (R-CALLORDER). has_account(), the one function that looks at the directive itself, takes the accounts from getters.get_entry_accounts(context.entry), never branches on the directive type and answers TRUE or FALSE on every path (R-ENTRYFILTER): PRINT evaluates its filter on directives of every type. account_sortkey() classifies with the account types of this ledger (R-ACCTTYPES); execute_print does not hand the ledger's rounding display context to the printer (R-PRINTFILTER print:precision) - a necessary condition of losslessness, the round trip itself is not decided."),
         'assumptions': TRUSTED_STRUCT,
-        'quick': [cl.rule_fieldflow, cr.rule_exhaustive, sx.rule_printfilter, st.rule_shared, cl.rule_callorder, sx.rule_entryfilter, sxl.rule_accttypes],
+        'quick': [cl.rule_fieldflow, cr.rule_exhaustive, sx.rule_printfilter, st.rule_shared, cl.rule_callorder, sx.rule_entryfilter, sxl.rule_accttypes, sxst.rule_onceperrow],
         'thorough': [],
     },
     'C15': {
@@ -355,9 +355,9 @@ PROPS = {
             "dot-commands never reach execute(), other lines do unless legacy, legacy names disjoint from statement "
             "keywords (R-DISPATCH); default close date for named queries (R-DEFAULTCLOSE); statement handlers exhaustive "
             "(R-EXHAUSTIVE). Does not decide byte equality of shell output with the renderer (the same function is "
-            "called), pager behaviour or history. _parse_format returns the very value whose membership in FORMATS it tested; parse() builds a new tree per call (R-PARSEFRESH): the shell writes the default CLOSE date into the tree it parsed. On terms: Settings.setstr for every setting x current value (the value goes through the setting's own parser, else its type's parser, else the type; exactly that setting is stored once with the parsed value; nothing is stored when the parser rejects), _parse_bool returns a bool on every path and reads back the spellings .set echoes, main -> BQLShell.__init__ -> do_reload carry every option (the error report is printed iff there are errors and -q was not given). BQLShell.on_Select hands the (numberified iff the setting is on) result of the connection, once, to FORMATS[settings.format] with the shell output, the ledger display context and all settings and prints nothing itself, for empty and non-empty results; on_Journal / on_Balances delegate to it; the text and csv plug-ins forward everything to render_text / render_csv, `(empty)` being the text format's rendering of an empty result (R-SELECTOUT). `.set` takes its words from shlex.split(arg) with the default rules. The dispatcher is interpreted on terms over dot prefix x command defined x legacy name."),
+            "called), pager behaviour or history. _parse_format returns the very value whose membership in FORMATS it tested; parse() builds a new tree per call (R-PARSEFRESH): the shell writes the default CLOSE date into the tree it parsed. On terms: Settings.setstr for every setting x current value (the value goes through the setting's own parser, else its type's parser, else the type; exactly that setting is stored once with the parsed value; nothing is stored when the parser rejects), _parse_bool returns a bool on every path and reads back the spellings .set echoes, main -> BQLShell.__init__ -> do_reload carry every option (the error report is printed iff there are errors and -q was not given). BQLShell.on_Select hands the (numberified iff the setting is on) result of the connection, once, to FORMATS[settings.format] with the shell output, the ledger display context and all settings and prints nothing itself, for empty and non-empty results; on_Journal / on_Balances delegate to it; the text and csv plug-ins forward everything to render_text / render_csv, `(empty)` being the text format's rendering of an empty result (R-SELECTOUT). `.set` takes its words from shlex.split(arg) with the default rules. The dispatcher is interpreted on terms over dot prefix x command defined x legacy name. parseline on concrete command words: exactly one leading dot is the prefix (R-CMDWORD); _extract_queries rebuilds the registry of named queries from the entries just loaded, first directive of a name wins (R-QUERYREG)."),
         'assumptions': TRUSTED_STRUCT,
-        'quick': [cl.rule_settings, sxsh.rule_optused, sxsh.rule_selectout, cl.rule_dispatch, sxst.rule_defaultclose, cr.rule_exhaustive, st.rule_parsefresh],
+        'quick': [cl.rule_settings, sxsh.rule_optused, sxsh.rule_selectout, cl.rule_dispatch, sxsh.rule_cmdword, sxsh.rule_queryreg, sxst.rule_defaultclose, cr.rule_exhaustive, st.rule_parsefresh],
         'thorough': [],
     },
 }
